@@ -53,4 +53,9 @@ def Resolves (T : Table) (r : Ref) (d : Path) : Prop :=
   ∃ n l rest s e, r.names = (n, l) :: rest ∧ HeadScope T r n s ∧
     Walks T s (r.names.map (·.1)) e ∧ e.canon = d
 
+/-- every reference of a pass is bound to what the scoping rules designate -/
+inductive AllResolved (T : Table) : List Ref → List (Option Path) → Prop
+  | nil : AllResolved T [] []
+  | cons {r rs d os} : Resolves T r d → AllResolved T rs os → AllResolved T (r :: rs) (some d :: os)
+
 end Emboss.Scope
